@@ -5,6 +5,10 @@ Constants the C18 models depend on, read from the source (tie T, fail closed):
   policy_section_names  : the set literal assigned to policy_sections in read_policy_from_file
   policy_member_names   : member names of enums.Policy (string valued, so not in Enums.v)
   caught_exception      : the single exception class scan_policies catches around read_policy_from_file
+  monitor_purges_shadowed : which of the two known shapes the end of the reload branch of scan_policies has:
+                          false = released code (only names the file owns and dropped are disassociated and restored),
+                          true  = with fixes/C18-stale-cache.diff (cache entries of the file dropped for every name it
+                          no longer defines, then the owned names restored).  Any other shape: fail.
 """
 import ast
 import importlib
@@ -29,9 +33,38 @@ def _coq_list(xs):
     return '[' + '; '.join('"%s"' % x for x in xs) + ']'
 
 
+RELEASED_TAIL = [
+    "for p in set(old_p) - set(new_p.keys()):\n    self.disassociate_policy_and_file(p, f)\n    self.restore_or_delete_policy(p)"]
+FIXED_TAIL = [
+    "for p in set(self.policy_cache.keys()) - set(new_p.keys()):\n    self.disassociate_policy_and_file(p, f)",
+    "for p in set(old_p) - set(new_p.keys()):\n    self.restore_or_delete_policy(p)"]
+
+
+def _reload_tail(mon):
+    """The statements that follow `for p in new_p.keys(): ...` in the reload branch of scan_policies."""
+    found = []
+    for n in ast.walk(mon):
+        if isinstance(n, ast.FunctionDef) and n.name == 'scan_policies':
+            for b in ast.walk(n):
+                body = getattr(b, 'body', None)
+                if not isinstance(body, list):
+                    continue
+                for i, st in enumerate(body):
+                    if isinstance(st, ast.For) and ast.unparse(st.iter) == 'new_p.keys()':
+                        found.append([ast.unparse(x) for x in body[i + 1:]])
+    if len(found) != 1:
+        raise ValueError('scan_policies: expected exactly one loop over new_p.keys(), found %d' % len(found))
+    if found[0] == RELEASED_TAIL:
+        return False
+    if found[0] == FIXED_TAIL:
+        return True
+    raise ValueError('scan_policies: unrecognised statements after the policy loading loop: %r' % found[0])
+
+
 def generate(repo):
     repo = Path(repo)
     mon = ast.parse((repo / 'kmip/services/server/monitor.py').read_text())
+    purges = _reload_tail(mon)
     reserved, caught = [], []
     for n in ast.walk(mon):
         if isinstance(n, ast.Assign) and len(n.targets) == 1 and isinstance(n.targets[0], ast.Attribute) \
@@ -69,5 +102,6 @@ def generate(repo):
         'Definition reserved_policy_names : list string := %s.' % _coq_list(reserved[0]),
         'Definition policy_section_names : list string := %s.' % _coq_list(sections[0]),
         'Definition policy_member_names : list string := %s.' % _coq_list(members),
-        'Definition caught_exception : string := "%s".' % caught[0], ''])
+        'Definition caught_exception : string := "%s".' % caught[0],
+        'Definition monitor_purges_shadowed : bool := %s.' % ('true' if purges else 'false'), ''])
     return {'PolicyNames.v': text}
